@@ -513,7 +513,10 @@ fn http_part(r: &mut Report) {
             r.states += 1;
             for ver in &versions {
                 for mask in 0..nsub {
-                    for ua_style in 0..2 {
+                    for ua_style in 0..6 {
+                        // optional white space around the value (RFC 7230 OWS = SP / HTAB): a space, a tab, nothing, both
+                        let (ows_pre, ows_post) = [(" ", ""), (" ", ""), ("\t", ""), ("", ""), (" \t ", " \t"), ("\t", "\t")][ua_style];
+                        let ua_style = ua_style % 2;
                         let sw_header = if is_req { "User-Agent" } else { "Server" };
                         let sw_value = if ua_style == 0 { sig.expsw.clone() } else { format!("Mozilla/5.0 (X11) {}9.9 extra", sig.expsw) };
                         let mut head = if is_req { format!("GET / {ver}\r\n") } else { format!("{ver} 200 OK\r\n") };
@@ -527,7 +530,7 @@ fn http_part(r: &mut Report) {
                                 }
                             }
                             let v = if hd.name.eq_ignore_ascii_case(sw_header) { sw_value.clone() } else { hd.value.clone().unwrap_or_else(|| default_value(&hd.name).to_string()) };
-                            head.push_str(&format!("{}: {}\r\n", hd.name, v));
+                            head.push_str(&format!("{}:{ows_pre}{}{ows_post}\r\n", hd.name, v));
                             hs.push((hd.name.clone(), v));
                         }
                         head.push_str("\r\n");
